@@ -108,13 +108,28 @@ func (e *Engine) evalGhostCall(c *FnCtx, env *Env, x *ECall) (Val, bool) {
 	}
 	switch x.Fun {
 	case "lastcall":
-		// lastcall(callee): the result of the most recent call of the named callee in the verified function
+		// lastcall(callee[, k]): the (k-th) result of the most recent call of the named tracked callee.  The results live in
+		// call-log components (ghost$res$callee$k), like the arguments: they merge at joins, are forgotten at the head of a loop
+		// that makes such calls, and are what a contracted callee's postconditions about its own tracked calls constrain.
 		name := x.Args[0].(*EIdent).Name
-		v, ok := c.lastCall[name]
-		if !ok {
-			// the verified code never calls it: the term denotes some value of the callee's result type about which
-			// nothing is known (so a clause that pins it down fails as an ordinary obligation, not as a malformed contract)
-			rs := c.trackResT[name] // a call exists in the code, but none has happened yet on this path (e.g. at a loop head)
+		if _, ok := c.trackArgT["ghost$res$"+name+"$0"]; !ok && !c.isTrackedName(name) {
+			// an untracked callee: the value the latest call on this path returned (no call-log components exist for it)
+			if v, ok := c.lastCall[name]; ok {
+				if len(x.Args) > 1 {
+					k, _ := strconv.Atoi(x.Args[1].(*EInt).V)
+					if k >= len(v.Tuple) {
+						panic(specError("lastcall(" + name + "," + x.Args[1].(*EInt).V + "): no such result"))
+					}
+					return v.Tuple[k], true
+				}
+				return v, true
+			}
+			panic(specError("lastcall(" + name + "): no such call on this path"))
+		}
+		if _, ok := c.trackArgT["ghost$res$"+name+"$0"]; !ok {
+			// no call seen so far: type the components from the calls in the code, else from the module's function of that
+			// name; the value is whatever the entry state holds (nothing is known about it)
+			rs := c.trackResT[name]
 			if rs == nil {
 				fn := c.eng.trackedSig(name)
 				if fn == nil {
@@ -122,22 +137,53 @@ func (e *Engine) evalGhostCall(c *FnCtx, env *Env, x *ECall) (Val, bool) {
 				}
 				rs = fn.Signature.Results()
 			}
-			if rs.Len() == 1 {
-				v = c.fresh("nocall$"+name, rs.At(0).Type(), env.st)
-			} else {
-				for k := 0; k < rs.Len(); k++ {
-					v.Tuple = append(v.Tuple, c.fresh("nocall$"+name, rs.At(k).Type(), env.st))
+			for k := 0; k < rs.Len(); k++ {
+				comp := fmt.Sprintf("ghost$res$%s$%d", name, k)
+				c.comp(comp, c.ty.SortOf(rs.At(k).Type()), rs.At(k).Type())
+				c.trackArgT[comp] = rs.At(k).Type()
+			}
+		}
+		get := func(k int) (Val, bool) {
+			comp := fmt.Sprintf("ghost$res$%s$%d", name, k)
+			t, ok := c.trackArgT[comp]
+			if !ok {
+				return Val{}, false
+			}
+			v := Val{T: t, E: c.heapGet(env.st, comp)}
+			// closure identity / freshness facts known for the value as returned, when this is still that very value
+			if prev, ok := c.lastCall[name]; ok {
+				pv := prev
+				if len(prev.Tuple) > k {
+					pv = prev.Tuple[k]
+				} else if len(prev.Tuple) > 0 {
+					return v, true
+				}
+				if pv.E == v.E {
+					pv.T = t
+					return pv, true
 				}
 			}
-			c.lastCall[name] = v
+			return v, true
 		}
 		if len(x.Args) > 1 {
-			// lastcall(callee, k): k-th result of a multi-valued callee
 			k, _ := strconv.Atoi(x.Args[1].(*EInt).V)
-			if k >= len(v.Tuple) {
+			v, ok := get(k)
+			if !ok {
 				panic(specError("lastcall(" + name + "," + x.Args[1].(*EInt).V + "): no such result"))
 			}
-			return v.Tuple[k], true
+			return v, true
+		}
+		v, _ := get(0)
+		if _, more := c.trackArgT["ghost$res$"+name+"$1"]; more {
+			var tv Val
+			for k := 0; ; k++ {
+				e, ok := get(k)
+				if !ok {
+					break
+				}
+				tv.Tuple = append(tv.Tuple, e)
+			}
+			return tv, true
 		}
 		return v, true
 	case "cbfn":
